@@ -80,6 +80,56 @@ fn main() {
             }
             let out: [u8; 32] = outer.finalize().into();
             println!("set={} digest={}", p.id, hex::encode(out));
+            // ---- behaviour digest (same byte stream as featprobe, expected values from FIPS 204 / the crate's docs) ----
+            let mut b = Sha256::new();
+            let bits = p.eta_bits();
+            let nfields = (p.k + p.l) * 256;
+            for i in 0..cases.min(32) {
+                let xi = h("xi", p.id, i, 0);
+                let mfull = h("m", p.id, i, 0);
+                let m = &mfull[..(i as usize * 7) % 33];
+                let (pk, sk) = refmodel::keygen_internal(&p, &xi);
+                b.update(&pk); // derived public key
+                b.update(&sk); // private key round trip
+                b.update(&pk); // public key round trip
+                for _v in (2 * p.eta as u32 + 1)..(1u32 << bits) {
+                    let _ = nfields;
+                    b.update([1u8]); // malformed private key rejected
+                }
+                b.update([1u8, 1, 0, 0]); // 256-byte context: both signers fail, both verifiers false
+                b.update([1u8, 1, 1]); // RNG fails on its first request: keygen, sign, hash-sign fail
+                let (si, _) = refmodel::sign_internal(&p, &sk, m, &h("rnd", p.id, i, 0), 100_000).expect("reference sign_internal");
+                b.update(&si);
+                b.update([1u8]);
+                b.update([1u8, 1]); // both key objects wiped on drop
+            }
+            let xi = h("xi", p.id, 0, 0);
+            let (_, mut skc) = refmodel::keygen_internal(&p, &xi);
+            let pat = h("t0pat", p.id, 0, 0);
+            let t0_bit = p.sk_t0_off() * 8;
+            for f in 0..(p.k * 256) {
+                let bit = (pat[(f / 8) % 32] >> (f % 8)) & 1;
+                for bi in 0..13 {
+                    let pos = t0_bit + f * 13 + bi;
+                    if bit == 1 {
+                        skc[pos / 8] |= 1 << (pos % 8);
+                    } else {
+                        skc[pos / 8] &= !(1 << (pos % 8));
+                    }
+                }
+            }
+            let crafted: Vec<Vec<u8>> = (0..cases.min(48))
+                .into_par_iter()
+                .map(|j| {
+                    let msg = h("cm", p.id, j, 0);
+                    refmodel::sign(&p, &skc, &msg[..8], &[], refmodel::Mode::Pure, &h("crnd", p.id, j, 0), 1_000_000).expect("reference sign (crafted key)").0
+                })
+                .collect();
+            for c in &crafted {
+                b.update(c);
+            }
+            let outb: [u8; 32] = b.finalize().into();
+            println!("set={} behave={}", p.id, hex::encode(outb));
         }
         return;
     }
